@@ -355,7 +355,7 @@ def gen_cases(chk):
     if not quick:
         chk.cov["exhaustive_subspace"] = ("single relation: 4 sides x 6 alignments (4 edges, centre, ports) x 11 separation kinds x 4 reflections "
                                           "of the placed x 4 of the reference instance, 12 size variants each")
-    m = 1 if quick else 20
+    m = 2 if quick else 20
     for _ in range(500 * m):
         cases.append(program_case(rng))
     for _ in range(150 * m):
